@@ -384,7 +384,7 @@ void skeleton(Profile &p, std::vector<std::string> &out) {
     p.nkeys = space;
     return;
   }
-  if ((c < 50 && (p.kind == "C01" || p.kind == "C06" || p.thorough)) || (p.kind == "C14" && c < 56)) {
+  if ((c < 50 && (p.kind == "C01" || p.kind == "C06" || p.thorough)) || (p.kind == "C14" && c < 52)) {
     // one user key whose versions (held by snapshots) are large enough to straddle two level-1 files, next to small
     // tables at levels 1 and 2, then partial-range compactions of level 1 whose input set has to be expanded
     int lo = uni(0, 2), mid = lo + uni(1, 2), hi = mid + uni(1, 2), big = hi + uni(1, 3);
@@ -420,7 +420,7 @@ void skeleton(Profile &p, std::vector<std::string> &out) {
   if (c < 56) {
     // value pushed deep, tombstone (or overwrite) flushed above it, then compact the upper level
     std::string k = gen_key(p);
-    int depth = uni(0, 4);
+    int depth = uni(0, 5);   // 5: the value ends in the last level (6)
     out.push_back("put " + k + " " + gen_val(p));
     if (chance(40)) out.push_back("put " + gen_key(p) + " " + gen_val(p));
     out.push_back("flush");
@@ -433,6 +433,16 @@ void skeleton(Profile &p, std::vector<std::string> &out) {
     out.push_back("get " + k);
     if (chance(50)) out.push_back(fmt("crange %d ", up) + gen_range_arg(p) + " " + gen_range_arg(p));
     out.push_back("get " + k);
+    if (chance(35)) {
+      // two reopen cycles that each write a fresh MANIFEST: the second one recovers from the first one's base record alone
+      out.push_back("reopen reuse=0");
+      out.push_back("get " + k);
+      out.push_back("reopen reuse=0");
+      out.push_back("get " + k);
+      out.push_back("check");
+      p.iters.clear();
+      p.snaps.clear();
+    }
   } else if (c < 65) {
     // several overlapping level-0 files with shadowed versions
     int n = uni(2, 6);
@@ -570,6 +580,28 @@ std::string build_crash_case(const std::string &kind_in) {
     std::string text;
     for (auto &l : lines) { text += l; text += "\n"; }
     return text;
+  }
+  if ((kind == "C03" || kind == "C13" || kind == "C05" || kind == "C02") && chance(12)) {
+    // "compaction tail" skeleton: four tiny overlapping level-0 tables start a short merging compaction (its loop is a few
+    // keys long, so most of its life is the tail: finishing the output, the MANIFEST append, obsolete-file removal); the
+    // writer meanwhile alternates one value larger than the write buffer with a small one, so that every second write
+    // switches memtables -- some of these switches land inside the tail, with an immutable memtable pending
+    for (const char *other : {" sched=eager", " sched=starved"}) {
+      size_t sp = lines[0].find(other);
+      if (sp != std::string::npos) lines[0].replace(sp, strlen(other), " sched=random");
+    }
+    std::string hot = gen_key(p);
+    for (int r = 0; r < 4; r++) {
+      lines.push_back("put " + hot + fmt(" r%d.%d", uni(0, 99999), uni(1, 200)));
+      if (chance(50)) lines.push_back("put " + gen_key(p) + fmt(" r%d.%d", uni(0, 99999), uni(1, 200)));
+      lines.push_back("flush");
+    }
+    int pairs = uni(2, 5);
+    for (int i = 0; i < pairs; i++) {
+      lines.push_back("put " + gen_key(p) + fmt(" r%d.%d", uni(0, 99999), uni(66000, 72000)) + (chance(20) ? " sync=1" : ""));
+      lines.push_back("put " + gen_key(p) + fmt(" r%d.%d", uni(0, 99999), uni(1, 100)));
+    }
+    if (nops > 10) nops = 10;
   }
   if (kind == "C12" && chance(25)) {
     // "busy compaction" skeleton: three level-0 tables, then a burst that triggers the level-0 compaction and keeps
